@@ -1137,3 +1137,38 @@ equivalent("c10-eq-mask-z-instead", "C10", [(D, WSUM, WSUM.replace("np.where(w =
             weights = weights + w
 
         y = weighted_sum / weights""")])
+
+# ------------------------------------------------------------------------------------------ C09
+mutant("c09-lom-mask-ge", "C09", (D, """        y_max = (y > 0) & (y == y.max(axis=1, keepdims=True))
+        lom = np.where(y_max, x, np.nan)""", """        y_max = (y >= 0) & (y == y.max(axis=1, keepdims=True))
+        lom = np.where(y_max, x, np.nan)"""), "LargestOfMaximum")
+mutant("c09-som-mask-dropped", "C09", (D, """        y_max = (y > 0) & (y == y.max(axis=1, keepdims=True))
+        som = np.where(y_max, x, np.nan)""", """        y_max = y == y.max(axis=1, keepdims=True)
+        som = np.where(y_max, x, np.nan)"""), "SmallestOfMaximum")
+mutant("c09-centroid-axis-0", "C09", (D, "        z = ((x * y).sum(axis=1) / y.sum(axis=1)).squeeze()", "        z = ((x * y).sum(axis=1) / y.sum(axis=0)).squeeze()"), "R3/Centroid.defuzzify/axis")
+mutant("c09-som-lom-reducers-swapped", "C09", [(D, "            z = np.nanmax(lom, axis=1).squeeze()", "            z = np.nanmin(lom, axis=1).squeeze()"), (D, "            z = np.nanmin(som, axis=1).squeeze()", "            z = np.nanmax(som, axis=1).squeeze()")], "R1/")
+mutant("c09-midpoints-swapped", "C09", (D, """        x = np.atleast_2d(Op.midpoints(minimum, maximum, self.resolution))
+        y = np.atleast_2d(term.membership(x))
+        z = ((x * y).sum""", """        x = np.atleast_2d(Op.midpoints(maximum, minimum, self.resolution))
+        y = np.atleast_2d(term.membership(x))
+        z = ((x * y).sum"""), "S1/Centroid.defuzzify/x")
+mutant("c09-midpoints-left-edges", "C09", (O, "        return start + (np.array(range(resolution)) + 0.5) * ((end - start) / resolution)", "        return start + (np.array(range(resolution))) * ((end - start) / resolution)"), "S5/Operation.midpoints")
+mutant("c09-mom-per-column-max", "C09", (D, """        y_max = (y > 0) & (y == y.max(axis=1, keepdims=True))
+        mom = np.where(y_max, x, np.nan)""", """        y_max = (y > 0) & (y == y.max(axis=0, keepdims=True))
+        mom = np.where(y_max, x, np.nan)"""), "MeanOfMaximum")
+mutant("c09-bisector-no-normalisation", "C09", (D, "        area = np.abs((area / area[:, [-1]]) - 0.5)", "        area = np.abs(area - 0.5)"), "S5/Bisector.defuzzify")
+mutant("c09-centroid-unweighted", "C09", (D, "        z = ((x * y).sum(axis=1) / y.sum(axis=1)).squeeze()", "        z = ((x).sum(axis=1) / y.sum(axis=1)).squeeze()"), "S5/Centroid.defuzzify")
+mutant("c09-default-resolution-used", "C09", (D, """        x = np.atleast_2d(Op.midpoints(minimum, maximum, self.resolution))
+        y = np.atleast_2d(term.membership(x))
+        area = np.nancumsum""", """        x = np.atleast_2d(Op.midpoints(minimum, maximum))
+        y = np.atleast_2d(term.membership(x))
+        area = np.nancumsum"""), "S1/Bisector.defuzzify/x")
+equivalent("c09-eq-renamed-locals", "C09", (D, """        y_max = (y > 0) & (y == y.max(axis=1, keepdims=True))
+        mom = np.where(y_max, x, np.nan)
+        with warnings.catch_warnings():
+            warnings.simplefilter("ignore")
+            z = np.nanmean(mom, axis=1).squeeze()""", """        positive_maximum = (y == y.max(axis=1, keepdims=True)) & (y > 0)
+        candidates = np.where(positive_maximum, x, np.nan)
+        with warnings.catch_warnings():
+            warnings.simplefilter("ignore")
+            z = np.nanmean(candidates, axis=1).squeeze()"""))
